@@ -27,39 +27,73 @@ class Result:
     reason: str = ""
 
 
-def field_apps(formulas, names):
-    """argument tuples of applications of heap-field functions whose field name is in `names`"""
-    out = {}
-    for t in T.subterms(formulas):
-        if z3.is_app(t) and t.num_args() > 0 and t.decl().kind() == z3.Z3_OP_UNINTERPRETED:
-            nm = t.decl().name()
-            base = nm.split("@", 1)[0]
-            if base in names:
-                out[tuple(a.get_id() for a in t.children())] = tuple(t.children())
-    return list(out.values())
+def _field_read_arg(s):
+    """if s is a plain read f@tag(v) of a heap field of one reference argument, return v"""
+    if z3.is_app(s) and s.num_args() == 1 and s.decl().kind() == z3.Z3_OP_UNINTERPRETED and "@" in s.decl().name():
+        a = s.arg(0)
+        if a.sort().eq(Ref):
+            return a
+    return None
 
 
-def instantiate(schemas, formulas, rounds=2):
-    insts = []
+def build_query(ob, class_axioms, base_facts, rounds=3):
+    """hypotheses + negated goal, tool-side instantiation of the quantified hypotheses (DESIGN.md 3.4) and saturation
+    with the generic axioms of the uninterpreted list algebra.  Instantiation is trigger driven:
+      - unary reference schemas: every reference term of the query;
+      - binary reference schemas: pairs (v, x) / (x, v) for every membership atom cnt(f(v), x) of the query
+        (trigger 'product' forces the full cartesian product);
+      - schemas with a field trigger: argument tuples of the applications of those heap fields."""
+    if ob.expect == "sat":
+        core = list(ob.hyps)
+    else:
+        core = list(ob.hyps) + [T.neg(ob.goal)]
+    core += base_facts
+    sc = T.Scanner()
+    seen_cls = set()
+    allf = list(core)
+    work = list(core)
+    U = {}
+    pairs = {}
+    ftuples = {}
     done = set()
-    work = list(formulas)
-    allf = list(formulas)
+    ninst = 0
     for _rnd in range(rounds):
-        new = []
-        univ = {}
-        for t in T.ref_terms(allf):
-            univ[t.get_id()] = t
-        U = list(univ.values())
-        if len(U) > MAX_UNIVERSE:
-            # keep the smaller terms (constants and shallow reads first)
-            U.sort(key=lambda t: len(t.sexpr()))
-            U = U[:MAX_UNIVERSE]
-        for si, sch in enumerate(schemas):
-            if sch.trigger:
-                tuples = [a for a in field_apps(allf, set(sch.trigger)) if len(a) == len(sch.sorts)
-                          and all(x.sort().eq(s) for x, s in zip(a, sch.sorts))]
-            elif all(s.eq(Ref) for s in sch.sorts):
-                tuples = list(itertools.product(U, repeat=len(sch.sorts)))
+        found, fields = sc.add(work)
+        new = T.axioms_for(found, class_axioms, seen_cls)
+        for t in found["ref"]:
+            U.setdefault(t.get_id(), t)
+        for t in found["cnt"]:
+            v = _field_read_arg(t.arg(0))
+            if v is not None:
+                x = t.arg(1)
+                pairs.setdefault((v.get_id(), x.get_id()), (v, x))
+                pairs.setdefault((x.get_id(), v.get_id()), (x, v))
+        for fname, tups in fields.items():
+            d = ftuples.setdefault(fname, {})
+            for tp in tups:
+                d.setdefault(tuple(a.get_id() for a in tp), tp)
+        Ul = list(U.values())
+        if len(Ul) > MAX_UNIVERSE:
+            Ul.sort(key=lambda t: len(t.sexpr()))
+            Ul = Ul[:MAX_UNIVERSE]
+        for si, sch in enumerate(ob.schemas):
+            if sch.trigger and sch.trigger != ("product",):
+                tuples = []
+                for fname in sch.trigger:
+                    for tp in ftuples.get(fname, {}).values():
+                        if len(tp) == len(sch.sorts) and all(x.sort().eq(s_) for x, s_ in zip(tp, sch.sorts)):
+                            tuples.append(tp)
+                        elif len(tp) < len(sch.sorts) and all(x.sort().eq(s_) for x, s_ in zip(tp, sch.sorts)) \
+                                and all(s_.eq(Ref) for s_ in sch.sorts[len(tp):]):
+                            # trailing reference variables range over the reference universe
+                            for rest in itertools.product(Ul, repeat=len(sch.sorts) - len(tp)):
+                                tuples.append(tp + rest)
+            elif len(sch.sorts) == 1 and sch.sorts[0].eq(Ref):
+                tuples = [(t,) for t in Ul]
+            elif len(sch.sorts) == 2 and all(s_.eq(Ref) for s_ in sch.sorts) and not sch.trigger:
+                tuples = list(pairs.values())
+            elif all(s_.eq(Ref) for s_ in sch.sorts):
+                tuples = list(itertools.product(Ul, repeat=len(sch.sorts)))
             else:
                 raise ValueError(f"schema {sch.name}: non-reference sorts need a trigger")
             for tup in tuples:
@@ -71,30 +105,12 @@ def instantiate(schemas, formulas, rounds=2):
                 if z3.is_true(f):
                     continue
                 new.append(f)
+                ninst += 1
         if not new:
             break
-        insts.extend(new)
-        allf = allf + new
-    return insts
-
-
-def build_query(ob, class_axioms, base_facts):
-    if ob.expect == "sat":
-        core = list(ob.hyps)
-    else:
-        core = list(ob.hyps) + [T.neg(ob.goal)]
-    core += base_facts
-    insts = instantiate(ob.schemas, core)
-    allf = core + insts
-    sat_ax = T.saturate(allf, class_axioms)
-    # seq.nth membership: an element read from a sequence is a member of it
-    extra = []
-    for t in T.subterms(allf):
-        if z3.is_app(t) and t.decl().kind() == z3.Z3_OP_SEQ_NTH and t.sort().eq(Ref):
-            s, i = t.arg(0), t.arg(1)
-            extra.append(z3.Implies(z3.And(i >= 0, i < z3.Length(s)), T.Cnt(s, t) >= 1))
-    extra += T.saturate(extra, class_axioms) if extra else []
-    return allf + sat_ax + extra, len(insts)
+        allf.extend(new)
+        work = new
+    return allf, ninst
 
 
 def run_cvc5(smt2: str, timeout_ms: int):
